@@ -1,3 +1,448 @@
--- placeholder: native driver of property C14 (see checks/README.md)
-def main (_ : List String) : IO UInt32 := do
-  IO.eprintln "drv_c14: not built yet"; return 2
+import GlmVerif.Hand.C14
+import Std.Data.HashSet
+/-!
+Native driver of property C14 (see checks/README.md).
+
+  drv_c14 lines <file>      for every harness line `op w args… -> glm-results…` evaluate the hand model and
+                            the executable specification; print
+                              MM <line> | model=…     model ≠ glm   (correspondence mismatch)
+                              SV <line> | spec=…      glm's result violates the specification
+                              OP <op> <w> n= mm= sv= silent= nontrivial=      per operation
+                              SUMMARY …
+  drv_c14 sweep <lo> <hi>   model side of the exhaustive float sweep: per block of 2^20 patterns the same
+                            fold hashes as `C14 sweep`, and the number of patterns on which the model
+                            differs from the specification (`SPEC …`, expected 0)
+-/
+open Glm.Hand.C14
+
+def hexVal (c : Char) : UInt64 :=
+  if '0' ≤ c ∧ c ≤ '9' then (c.toNat - '0'.toNat).toUInt64
+  else if 'a' ≤ c ∧ c ≤ 'f' then (c.toNat - 'a'.toNat + 10).toUInt64
+  else if 'A' ≤ c ∧ c ≤ 'F' then (c.toNat - 'A'.toNat + 10).toUInt64
+  else 0
+def parseHex (s : String) : UInt64 := s.foldl (fun acc c => acc * 16 + hexVal c) 0
+def hexDigits : Array Char := #['0','1','2','3','4','5','6','7','8','9','a','b','c','d','e','f']
+def toHex (v : UInt64) : String :=
+  if v == 0 then "0" else Id.run do
+    let mut cs : List Char := []
+    let mut x := v
+    while x != 0 do
+      cs := hexDigits[(x &&& 15).toNat]! :: cs
+      x := x >>> 4
+    return String.ofList cs
+def hexList (a : Array UInt64) : String := " ".intercalate (a.toList.map toHex)
+
+/-- `int` argument (32-bit pattern) as a loop count -/
+def stepsOf (k : UInt64) : Nat := ulpsToNat k.toUInt32
+def intOf (k : UInt64) : Int := k.toUInt32.toBitVec.toInt
+def b2u (b : Bool) : UInt64 := if b then 1 else 0
+
+/-- width-generic view of the model and the specification (w = 32: values are zero-extended `UInt32`) -/
+structure Ops where
+  isNaN : UInt64 → Bool
+  isFinite : UInt64 → Bool
+  next : UInt64 → UInt64
+  prev : UInt64 → UInt64
+  nextN : UInt64 → Nat → UInt64
+  prevN : UInt64 → Nat → UInt64
+  dist : UInt64 → UInt64 → UInt64
+  ftNeg : UInt64 → Bool
+  ftMan : UInt64 → UInt64
+  ftExp : UInt64 → UInt64
+  eqS : UInt64 → UInt64 → UInt64 → Bool
+  eqV : UInt64 → UInt64 → UInt64 → Bool
+  leAbs : UInt64 → UInt64 → Bool
+  gtAbs : UInt64 → UInt64 → Bool
+  ltAbs : UInt64 → UInt64 → Bool
+  geAbs : UInt64 → UInt64 → Bool
+  sub : UInt64 → UInt64 → UInt64
+  nextafter : UInt64 → UInt64 → UInt64
+  -- specification
+  sNextUp : UInt64 → UInt64
+  sNextDown : UInt64 → UInt64
+  sNextUpN : UInt64 → Nat → UInt64
+  sNextDownN : UInt64 → Nat → UInt64
+  sKey : UInt64 → Int
+  sKInf : Int
+  sDist : UInt64 → UInt64 → Int
+  sEq : UInt64 → UInt64 → Int → Bool
+  sSign : UInt64 → Bool
+  sMant : UInt64 → UInt64
+  sExp : UInt64 → UInt64
+  sLeAbs : UInt64 → UInt64 → Bool
+  sGtAbs : UInt64 → UInt64 → Bool
+  sNextafter : UInt64 → UInt64 → UInt64
+  exactLe : UInt64 → UInt64 → UInt64 → Option Bool
+
+def ops32 : Ops where
+  isNaN x := isNaN32 x.toUInt32
+  isFinite x := isFinite32 x.toUInt32
+  next x := (glmNextFloat32 x.toUInt32).toUInt64
+  prev x := (glmPrevFloat32 x.toUInt32).toUInt64
+  nextN x n := (glmNextFloatN32 x.toUInt32 n).toUInt64
+  prevN x n := (glmPrevFloatN32 x.toUInt32 n).toUInt64
+  dist x y := (glmFloatDistance32 x.toUInt32 y.toUInt32).toUInt64
+  ftNeg x := ftNegative32 x.toUInt32
+  ftMan x := (ftMantissa32 x.toUInt32).toUInt64
+  ftExp x := (ftExponent32 x.toUInt32).toUInt64
+  eqS x y k := glmEqualUlps32 x.toUInt32 y.toUInt32 k.toUInt32
+  eqV x y k := glmEqualUlpsVec32 x.toUInt32 y.toUInt32 k.toUInt32
+  leAbs d e := glmLeAbs32 d.toUInt32 e.toUInt32
+  gtAbs d e := glmGtAbs32 d.toUInt32 e.toUInt32
+  ltAbs d e := glmLtAbs32 d.toUInt32 e.toUInt32
+  geAbs d e := glmGeAbs32 d.toUInt32 e.toUInt32
+  sub x y := (subBits32 x.toUInt32 y.toUInt32).toUInt64
+  nextafter x y := (nextafter32 x.toUInt32 y.toUInt32).toUInt64
+  sNextUp x := (nextUp32 x.toUInt32).toUInt64
+  sNextDown x := (nextDown32 x.toUInt32).toUInt64
+  sNextUpN x n := (nextUpN32 x.toUInt32 n).toUInt64
+  sNextDownN x n := (nextDownN32 x.toUInt32 n).toUInt64
+  sKey x := ordKey32 x.toUInt32
+  sKInf := 2139095040
+  sDist x y := distSpec32 x.toUInt32 y.toUInt32
+  sEq x y k := equalUlpsSpec32 x.toUInt32 y.toUInt32 k
+  sSign x := sign32 x.toUInt32
+  sMant x := x &&& 0x007FFFFF
+  sExp x := (x >>> 23) &&& 0xFF
+  sLeAbs d e := leAbsSpec32 d.toUInt32 e.toUInt32
+  sGtAbs d e := gtAbsSpec32 d.toUInt32 e.toUInt32
+  sNextafter x y := (nextafterSpec32 x.toUInt32 y.toUInt32).toUInt64
+  exactLe x y e := exactLeAbs32 x.toUInt32 y.toUInt32 e.toUInt32
+
+def ops64 : Ops where
+  isNaN x := isNaN64 x
+  isFinite x := isFinite64 x
+  next x := glmNextFloat64 x
+  prev x := glmPrevFloat64 x
+  nextN x n := glmNextFloatN64 x n
+  prevN x n := glmPrevFloatN64 x n
+  dist x y := glmFloatDistance64 x y
+  ftNeg x := ftNegative64 x
+  ftMan x := ftMantissa64 x
+  ftExp x := ftExponent64 x
+  eqS x y k := glmEqualUlps64 x y k.toUInt32
+  eqV x y k := glmEqualUlpsVec64 x y k.toUInt32
+  leAbs d e := glmLeAbs64 d e
+  gtAbs d e := glmGtAbs64 d e
+  ltAbs d e := glmLtAbs64 d e
+  geAbs d e := glmGeAbs64 d e
+  sub x y := subBits64 x y
+  nextafter x y := nextafter64 x y
+  sNextUp x := nextUp64 x
+  sNextDown x := nextDown64 x
+  sNextUpN x n := nextUpN64 x n
+  sNextDownN x n := nextDownN64 x n
+  sKey x := ordKey64 x
+  sKInf := 9218868437227405312
+  sDist x y := distSpec64 x y
+  sEq x y k := equalUlpsSpec64 x y k
+  sSign x := sign64 x
+  sMant x := x &&& 0x000FFFFFFFFFFFFF
+  sExp x := (x >>> 52) &&& 0x7FF
+  sLeAbs d e := leAbsSpec64 d e
+  sGtAbs d e := gtAbsSpec64 d e
+  sNextafter x y := nextafterSpec64 x y
+  exactLe x y e := exactLeAbs64 x y e
+
+/-- a specification verdict: per result slot `some expected` or `none` (property silent on this slot) -/
+abbrev Expect := Array (Option UInt64)
+
+def intBits (w : Nat) (v : Int) : UInt64 :=
+  if w == 32 then (UInt32.ofInt v).toUInt64 else UInt64.ofInt v
+
+/-- mask results: expected bit i given only where defined; returns (mask of defined bits, expected bits) -/
+def maskOf (bs : Array (Option Bool)) : UInt64 × UInt64 := Id.run do
+  let mut dm : UInt64 := 0
+  let mut ev : UInt64 := 0
+  for h : i in [0:bs.size] do
+    match bs[i] with
+    | some b => dm := dm ||| ((1 : UInt64) <<< i.toUInt64); if b then ev := ev ||| ((1 : UInt64) <<< i.toUInt64)
+    | none => pure ()
+  return (dm, ev)
+
+structure Eval where
+  model : Option (Array UInt64)        -- none: not modelled on this input
+  /-- per result slot: (mask of bits the property constrains, expected value under that mask) -/
+  spec : Array (UInt64 × UInt64)
+
+def full : UInt64 := 0xFFFFFFFFFFFFFFFF
+def exact (v : UInt64) : UInt64 × UInt64 := (full, v)
+def silent : UInt64 × UInt64 := (0, 0)
+
+def evalLine (o : Ops) (w : Nat) (op : String) (a : Array UInt64) : Option Eval :=
+  let g (i : Nat) : UInt64 := a[i]!
+  let nanFree (l : List UInt64) : Bool := l.all fun x => !o.isNaN x
+  let stepUp (x : UInt64) : UInt64 × UInt64 := if o.isFinite x then exact (o.sNextUp x) else silent
+  let stepDown (x : UInt64) : UInt64 × UInt64 := if o.isFinite x then exact (o.sNextDown x) else silent
+  let stepUpN (x : UInt64) (n : Nat) : UInt64 × UInt64 := if o.isFinite x then exact (o.sNextUpN x n) else silent
+  let stepDownN (x : UInt64) (n : Nat) : UInt64 × UInt64 := if o.isFinite x then exact (o.sNextDownN x n) else silent
+  let distS (x y : UInt64) : UInt64 × UInt64 := if nanFree [x, y] then exact (intBits w (o.sDist x y)) else silent
+  let eqB (x y k : UInt64) : Option Bool := if nanFree [x, y] then some (o.sEq x y (intOf k)) else none
+  let pairMask (es : Array (Option Bool)) : Array (UInt64 × UInt64) :=
+    let (dm, ev) := maskOf es
+    let (_, nv) := maskOf (es.map fun e => e.map (!·))
+    #[(dm, ev), (dm, nv)]
+  let m2 (f : UInt64 → UInt64 → UInt64 → Bool) (neg : Bool) (x0 y0 x1 y1 k0 k1 : UInt64) : UInt64 :=
+    b2u (f x0 y0 k0 != neg) ||| (b2u (f x1 y1 k1 != neg) <<< 1)
+  match op with
+  | "next" | "gnext" => some ⟨some #[o.next (g 0)], #[stepUp (g 0)]⟩
+  | "prev" | "gprev" => some ⟨some #[o.prev (g 0)], #[stepDown (g 0)]⟩
+  | "vnext" | "gvnext" => some ⟨some #[o.next (g 0), o.next (g 1), o.next (g 2)], #[stepUp (g 0), stepUp (g 1), stepUp (g 2)]⟩
+  | "vprev" | "gvprev" => some ⟨some #[o.prev (g 0), o.prev (g 1), o.prev (g 2)], #[stepDown (g 0), stepDown (g 1), stepDown (g 2)]⟩
+  | "nextN" | "gnextN" => some ⟨some #[o.nextN (g 0) (stepsOf (g 1))], #[stepUpN (g 0) (stepsOf (g 1))]⟩
+  | "prevN" | "gprevN" => some ⟨some #[o.prevN (g 0) (stepsOf (g 1))], #[stepDownN (g 0) (stepsOf (g 1))]⟩
+  | "vnextN" | "gvnextN" =>
+      let n := stepsOf (g 2); some ⟨some #[o.nextN (g 0) n, o.nextN (g 1) n], #[stepUpN (g 0) n, stepUpN (g 1) n]⟩
+  | "vprevN" | "gvprevN" =>
+      let n := stepsOf (g 2); some ⟨some #[o.prevN (g 0) n, o.prevN (g 1) n], #[stepDownN (g 0) n, stepDownN (g 1) n]⟩
+  | "vnextNv" | "gvnextNv" =>
+      some ⟨some #[o.nextN (g 0) (stepsOf (g 2)), o.nextN (g 1) (stepsOf (g 3))], #[stepUpN (g 0) (stepsOf (g 2)), stepUpN (g 1) (stepsOf (g 3))]⟩
+  | "vprevNv" | "gvprevNv" =>
+      some ⟨some #[o.prevN (g 0) (stepsOf (g 2)), o.prevN (g 1) (stepsOf (g 3))], #[stepDownN (g 0) (stepsOf (g 2)), stepDownN (g 1) (stepsOf (g 3))]⟩
+  | "dist" | "gdist" => some ⟨some #[o.dist (g 0) (g 1)], #[distS (g 0) (g 1)]⟩
+  | "vdist" | "gvdist" => some ⟨some #[o.dist (g 0) (g 1), o.dist (g 2) (g 3)], #[distS (g 0) (g 1), distS (g 2) (g 3)]⟩
+  | "distN" =>
+      let x := g 0; let n := stepsOf (g 1)
+      if o.isNaN x then some ⟨none, #[silent]⟩
+      else some ⟨some #[o.dist x (o.nextN x n)], #[if o.sKey x + n ≤ o.sKInf then exact (intBits w n) else silent]⟩
+  | "distP" =>
+      let x := g 0; let n := stepsOf (g 1)
+      if o.isNaN x then some ⟨none, #[silent]⟩
+      else some ⟨some #[o.dist x (o.prevN x n)], #[if -o.sKInf ≤ o.sKey x - n then exact (intBits w n) else silent]⟩
+  | "ft" =>
+      let x := g 0
+      some ⟨some #[b2u (o.ftNeg x), o.ftMan x, o.ftExp x], #[exact (b2u (o.sSign x)), exact (o.sMant x), exact (o.sExp x)]⟩
+  | "eqU_s" =>
+      let e := o.eqS (g 0) (g 1) (g 2)
+      some ⟨some #[b2u e, b2u (!e)], pairMask #[eqB (g 0) (g 1) (g 2)]⟩
+  | "eqU_v" =>
+      some ⟨some #[m2 o.eqV false (g 0) (g 1) (g 2) (g 3) (g 4) (g 4), m2 o.eqV true (g 0) (g 1) (g 2) (g 3) (g 4) (g 4)],
+            pairMask #[eqB (g 0) (g 1) (g 4), eqB (g 2) (g 3) (g 4)]⟩
+  | "eqU_vk" =>
+      some ⟨some #[m2 o.eqV false (g 0) (g 1) (g 2) (g 3) (g 4) (g 5), m2 o.eqV true (g 0) (g 1) (g 2) (g 3) (g 4) (g 5)],
+            pairMask #[eqB (g 0) (g 1) (g 4), eqB (g 2) (g 3) (g 5)]⟩
+  | "eqU_m" =>
+      let k := g 8
+      let colE (c : Nat) : Bool := o.eqV (g (4*c)) (g (4*c+1)) k && o.eqV (g (4*c+2)) (g (4*c+3)) k
+      let colN (c : Nat) : Bool := !(o.eqV (g (4*c)) (g (4*c+1)) k) || !(o.eqV (g (4*c+2)) (g (4*c+3)) k)
+      let colS (c : Nat) : Option Bool :=
+        match eqB (g (4*c)) (g (4*c+1)) k, eqB (g (4*c+2)) (g (4*c+3)) k with
+        | some p, some q => some (p && q)
+        | _, _ => none
+      some ⟨some #[b2u (colE 0) ||| (b2u (colE 1) <<< 1), b2u (colN 0) ||| (b2u (colN 1) <<< 1)], pairMask #[colS 0, colS 1]⟩
+  | "eqE_s" =>
+      let d := o.sub (g 0) (g 1)
+      some ⟨some #[b2u (o.leAbs d (g 2)), b2u (o.gtAbs d (g 2))], #[exact (b2u (o.sLeAbs d (g 2))), exact (b2u (o.sGtAbs d (g 2)))]⟩
+  | "eps_s" =>
+      let d := o.sub (g 0) (g 1)
+      some ⟨some #[b2u (o.ltAbs d (g 2)), b2u (o.geAbs d (g 2))], #[exact (b2u (o.sLeAbs d (g 2))), exact (b2u (o.sGtAbs d (g 2)))]⟩
+  | "eqE_v" | "eqE_vv" | "eps_v" | "eps_vv" =>
+      let d0 := o.sub (g 0) (g 1); let d1 := o.sub (g 2) (g 3)
+      let e0 := g 4; let e1 := if op == "eqE_vv" || op == "eps_vv" then g 5 else g 4
+      let strict := op == "eps_v" || op == "eps_vv"
+      let fe := if strict then o.ltAbs else o.leAbs
+      let fn := if strict then o.geAbs else o.gtAbs
+      some ⟨some #[b2u (fe d0 e0) ||| (b2u (fe d1 e1) <<< 1), b2u (fn d0 e0) ||| (b2u (fn d1 e1) <<< 1)],
+            #[exact (b2u (o.sLeAbs d0 e0) ||| (b2u (o.sLeAbs d1 e1) <<< 1)), exact (b2u (o.sGtAbs d0 e0) ||| (b2u (o.sGtAbs d1 e1) <<< 1))]⟩
+  | "eqE_m" =>
+      let e := g 8
+      let d (i : Nat) : UInt64 := o.sub (g (2*i)) (g (2*i+1))
+      some ⟨some #[b2u (o.leAbs (d 0) e && o.leAbs (d 1) e) ||| (b2u (o.leAbs (d 2) e && o.leAbs (d 3) e) <<< 1),
+                   b2u (o.gtAbs (d 0) e || o.gtAbs (d 1) e) ||| (b2u (o.gtAbs (d 2) e || o.gtAbs (d 3) e) <<< 1)],
+            #[exact (b2u (o.sLeAbs (d 0) e && o.sLeAbs (d 1) e) ||| (b2u (o.sLeAbs (d 2) e && o.sLeAbs (d 3) e) <<< 1)),
+              exact (b2u (o.sGtAbs (d 0) e || o.sGtAbs (d 1) e) ||| (b2u (o.sGtAbs (d 2) e || o.sGtAbs (d 3) e) <<< 1))]⟩
+  | "eqE_q" | "eps_q" =>
+      let e := g 8
+      let d (i : Nat) : UInt64 := o.sub (g (2*i)) (g (2*i+1))
+      let strict := op == "eps_q"
+      let fe := if strict then o.ltAbs else o.leAbs
+      let fn := if strict then o.geAbs else o.gtAbs
+      let mk (f : UInt64 → UInt64 → Bool) : UInt64 :=
+        b2u (f (d 0) e) ||| (b2u (f (d 1) e) <<< 1) ||| (b2u (f (d 2) e) <<< 2) ||| (b2u (f (d 3) e) <<< 3)
+      some ⟨some #[mk fe, mk fn], #[exact (mk o.sLeAbs), exact (mk o.sGtAbs)]⟩
+  | "nextafter" => some ⟨some #[o.nextafter (g 0) (g 1)], #[exact (o.sNextafter (g 0) (g 1))]⟩
+  | "bundled" => some ⟨none, #[silent]⟩
+  | _ => none
+
+def arity (op : String) : Nat :=
+  match op with
+  | "next" | "prev" | "gnext" | "gprev" | "ft" => 1
+  | "vnext" | "vprev" | "gvnext" | "gvprev" => 3
+  | "nextN" | "prevN" | "gnextN" | "gprevN" | "dist" | "gdist" | "distN" | "distP" | "nextafter" | "bundled" => 2
+  | "vnextN" | "vprevN" | "gvnextN" | "gvprevN" | "eqU_s" | "eqE_s" | "eps_s" => 3
+  | "vnextNv" | "vprevNv" | "gvnextNv" | "gvprevNv" | "vdist" | "gvdist" => 4
+  | "eqU_v" | "eqE_v" | "eps_v" => 5
+  | "eqU_vk" | "eqE_vv" | "eps_vv" => 6
+  | "eqU_m" | "eqE_m" | "eqE_q" | "eps_q" => 9
+  | _ => 0
+
+structure OpStat where
+  n : Nat := 0
+  mm : Nat := 0
+  sv : Nat := 0
+  silent : Nat := 0
+  nontrivial : Nat := 0
+
+def runLines (path : String) : IO UInt32 := do
+  let h ← IO.FS.Handle.mk path IO.FS.Mode.read
+  let out ← IO.getStdout
+  let mut stats : Std.HashMap String OpStat := {}
+  let mut seen : Std.HashSet String := {}
+  let mut distinctNontrivial := 0
+  let mut lines := 0
+  let mut bad := 0
+  let mut mmPrinted := 0
+  let mut svPrinted := 0
+  let mut exactChecked := 0
+  let mut exactImplViol := 0
+  let mut exactSlack := 0
+  let mut bundledN := 0
+  let mut bundledDiff := 0
+  let mut bundledSample : Array String := #[]
+  let mut exactSample : Array String := #[]
+  repeat
+    let raw ← h.getLine
+    if raw.isEmpty then break
+    let line := raw.trimRight
+    if line.isEmpty then continue
+    lines := lines + 1
+    let toks := line.splitOn " "
+    match toks with
+    | op :: ws :: rest =>
+      let w := ws.toNat!
+      let o := if w == 32 then ops32 else ops64
+      let argToks := rest.takeWhile (· != "->")
+      let resToks := (rest.dropWhile (· != "->")).drop 1
+      let a := (argToks.map parseHex).toArray
+      let r := (resToks.map parseHex).toArray
+      if a.size != arity op || arity op == 0 then
+        bad := bad + 1
+        out.putStrLn s!"BAD {line}"
+        continue
+      match evalLine o w op a with
+      | none => bad := bad + 1; out.putStrLn s!"BAD {line}"
+      | some ev =>
+        let key := s!"{op} {ws}"
+        let st := stats.getD key {}
+        let mut st := { st with n := st.n + 1 }
+        -- model vs glm
+        match ev.model with
+        | some m =>
+          if m != r then
+            st := { st with mm := st.mm + 1 }
+            if mmPrinted < 400 then
+              mmPrinted := mmPrinted + 1
+              out.putStrLn s!"MM {line} | model={hexList m}"
+        | none => pure ()
+        -- glm vs specification
+        if ev.spec.size != r.size then
+          bad := bad + 1; out.putStrLn s!"BAD {line}"
+        else
+          let mut viol := false
+          let mut anyCon := false
+          for i in [0:r.size] do
+            let (dm, evv) := ev.spec[i]!
+            if dm != 0 then anyCon := true
+            if (r[i]! &&& dm) != (evv &&& dm) then viol := true
+          if !anyCon then st := { st with silent := st.silent + 1 }
+          if viol && op != "nextafter" then
+            st := { st with sv := st.sv + 1 }
+            if svPrinted < 300000 then
+              svPrinted := svPrinted + 1
+              let sp := " ".intercalate (ev.spec.toList.map fun (dm, v) => if dm == 0 then "-" else if dm == full then toHex v else s!"{toHex v}/{toHex dm}")
+              out.putStrLn s!"SV {line} | spec={sp}"
+          if viol && op == "nextafter" then
+            -- the platform's libm differs from the C11 specification: a model problem, reported as a mismatch
+            st := { st with mm := st.mm + 1 }
+            if mmPrinted < 400 then
+              mmPrinted := mmPrinted + 1
+              out.putStrLn s!"MM {line} | libm differs from nextafterSpec"
+        -- distinct / non-trivial inputs
+        let inKey := s!"{op} {ws} {" ".intercalate argToks}"
+        if !seen.contains inKey then
+          seen := seen.insert inKey
+          let allZero := r.all (· == 0)
+          let copy := r.size ≤ a.size && (List.range r.size).all fun i => r[i]! == a[i]!
+          if !allZero && !copy then
+            distinctNontrivial := distinctNontrivial + 1
+            st := { st with nontrivial := st.nontrivial + 1 }
+        stats := stats.insert key st
+        -- explored, not proved: the exact-rational reading of |x - y| <= eps
+        if op == "eqE_s" then
+          match o.exactLe a[0]! a[1]! a[2]! with
+          | some ex =>
+            exactChecked := exactChecked + 1
+            let glmEq := r[0]! == 1
+            if ex && !glmEq then
+              exactImplViol := exactImplViol + 1
+              if exactSample.size < 5 then exactSample := exactSample.push s!"EXACT-IMPL {line}"
+            if !ex && glmEq then
+              exactSlack := exactSlack + 1
+              if exactSample.size < 5 then exactSample := exactSample.push s!"EXACT-SLACK {line}"
+          | none => pure ()
+        -- explored: glm's bundled (dead on this platform) nextafter against the C11 specification
+        if op == "bundled" then
+          bundledN := bundledN + 1
+          if r[0]! != o.sNextafter a[0]! a[1]! then
+            bundledDiff := bundledDiff + 1
+            if bundledSample.size < 5 then bundledSample := bundledSample.push s!"BUNDLED {line} | spec={toHex (o.sNextafter a[0]! a[1]!)}"
+    | _ => bad := bad + 1; out.putStrLn s!"BAD {line}"
+  let mut tmm := 0
+  let mut tsv := 0
+  let mut tsil := 0
+  for (k, st) in stats.toList do
+    out.putStrLn s!"OP {k} n={st.n} mm={st.mm} sv={st.sv} silent={st.silent} nontrivial={st.nontrivial}"
+    tmm := tmm + st.mm; tsv := tsv + st.sv; tsil := tsil + st.silent
+  for s in exactSample do out.putStrLn s
+  for s in bundledSample do out.putStrLn s
+  out.putStrLn s!"SUMMARY lines={lines} bad={bad} mm={tmm} sv={tsv} silent={tsil} distinct={seen.size} nontrivial={distinctNontrivial} exact_checked={exactChecked} exact_impl_viol={exactImplViol} exact_slack={exactSlack} bundled={bundledN} bundled_diff={bundledDiff}"
+  return 0
+
+/-! ### exhaustive sweep: the same nine values per pattern as `sweepValues` of diff/C14.cpp -/
+
+@[inline] def fold (h v : UInt64) : UInt64 :=
+  let h1 := (h ^^^ v) * 0x100000001b3
+  h1 ^^^ (h1 >>> 29)
+
+def runSweep (lo hi : Nat) : IO UInt32 := do
+  let out ← IO.getStdout
+  let mut specViol := 0
+  let mut finite := 0
+  for b in [lo:hi] do
+    let mut h0 : UInt64 := 0xcbf29ce484222325
+    let mut h1 := h0; let mut h2 := h0; let mut h3 := h0; let mut h4 := h0
+    let mut h5 := h0; let mut h6 := h0; let mut h7 := h0; let mut h8 := h0
+    for k in [0:1048576] do
+      let x : UInt32 := ((b <<< 20) + k).toUInt32
+      let nx := glmNextFloat32 x
+      let pv := glmPrevFloat32 x
+      let nan := isNaN32 x
+      h0 := fold h0 nx.toUInt64
+      h1 := fold h1 pv.toUInt64
+      h2 := fold h2 nx.toUInt64
+      h3 := fold h3 pv.toUInt64
+      h4 := fold h4 ((if ftNegative32 x then (1 : UInt64) <<< 40 else 0) ||| ((ftExponent32 x).toUInt64 <<< 24) ||| (ftMantissa32 x).toUInt64)
+      h5 := fold h5 (if nan then 0 else (glmFloatDistance32 x nx).toUInt64)
+      h6 := fold h6 (if nan then 0 else
+        b2u (glmEqualUlps32 x nx 1) ||| (b2u (glmEqualUlps32 x nx 0) <<< 1) |||
+        (b2u (glmEqualUlpsVec32 x nx 1) <<< 2) ||| (b2u (glmEqualUlpsVec32 pv nx 1) <<< 3))
+      let n3 := glmNextFloatN32 x 3
+      let p3 := glmPrevFloatN32 x 3
+      h7 := fold h7 n3.toUInt64
+      h8 := fold h8 p3.toUInt64
+      -- model against the specification on the same pattern (theorems re-run natively)
+      if isFinite32 x then
+        finite := finite + 1
+        if nx != nextUp32 x || pv != nextDown32 x || n3 != nextUpN32 x 3 || p3 != nextDownN32 x 3
+           || (glmFloatDistance32 x nx).toBitVec.toInt != 1
+           || glmEqualUlpsVec32 x nx 1 != true || glmEqualUlpsVec32 x nx 0 != false then
+          specViol := specViol + 1
+    out.putStrLn s!"B {b} {toHex h0} {toHex h1} {toHex h2} {toHex h3} {toHex h4} {toHex h5} {toHex h6} {toHex h7} {toHex h8}"
+  out.putStrLn s!"SPEC blocks={hi - lo} finite={finite} specviol={specViol}"
+  return 0
+
+def main (args : List String) : IO UInt32 := do
+  match args with
+  | ["lines", path] => runLines path
+  | ["sweep", lo, hi] => runSweep lo.toNat! hi.toNat!
+  | _ => IO.eprintln "usage: drv_c14 lines <file> | sweep <lo> <hi>"; return 2
